@@ -34,9 +34,9 @@ def run(P, rep, tier):
         'a struct_union_decl() result has size 0 (complete; checked for definitions by R08.3 definition/*/complete) or -1 (forward declaration) and alignment >= 1',
         'struct_members() writes members/is_flexible of the type it is given and attribute_list() is_packed/align (each checked on its own); declspec() only adds to *attr',
         'a non-positive aligned() argument may be ignored or diagnosed (not judged further); alignments that are not powers of two are outside the attribute grid',
-        'packed + explicit member _Alignas is outside the oracle (GNU extension interplay); packed layouts are compared with gcc, the rest with psABI 3.1.2',
+        'packed layouts are compared with gcc (an explicit _Alignas(N) on a member of a packed type, N above the member type\'s alignment, is honoured: placement and type alignment as in an unpacked type), the rest with psABI 3.1.2; an _Alignas equal to the type\'s alignment is not distinguishable in the member object and not judged',
         'Type.name/name_pos (the identifier a declarator records in whatever type object it returns) and Type.vla_size (run-time size slot of a VLA type, assigned where the declaration is evaluated) do not describe the type: stores into them are not judged by R08.6',
-        'R08.6: pointer provenance is tracked through locals, returns and parameters; the value of a `Type *` field or global is "shared"; a `Member *` loaded from a type object belongs to that object (a shallow copy_type() copy still shares its member list: not distinguished); a store into a shared object on a path that correlated conditions exclude is still reported',
+        'R08.6: pointer provenance is tracked through locals, returns and parameters; the value of a `Type *` field or global is "shared"; a `Member *` loaded from a type object belongs to that object, except that a whole-object copy (`*new = *old`, copy_type()) still shares its member list with the original until its `members` field receives a fresh list; a local `Member **`/`Type **` that only receives `&obj->field` is followed (loads and stores through it are loads from / stores into those objects), other pointers to pointers are not; a store into a shared object on a path that correlated conditions exclude is still reported',
         'platform ABI of the header typedefs: gcc <stddef.h>/<stdarg.h>/<stdatomic.h> with glibc <stdint.h> on x86-64 (int_fast16/32/64_t are long); _Atomic T has the size and alignment of T (T up to 8 bytes)',
     ]
     import traceback
@@ -107,8 +107,6 @@ def grid(cls, packed, union):
         for mult in (0, 1, 2, 3):
             S = TA * mult
             if name.startswith('alignas-'):
-                if packed:
-                    continue
                 for MA in ALIGNS:
                     if MA > TA:
                         shapes.append((S, TA, MA))
@@ -145,6 +143,8 @@ def oracle_struct(cls, packed, e):
             r['offset'] = B1 // 8 // S * S
             r['bit_offset'] = B1 % (8 * S)
         return r
+    if cls[0].startswith('alignas-'):
+        packed = False         # gcc: packed removes the padding a member's *type* asks for, an explicit _Alignas on the member is honoured
     B1 = up(B, 8 * (1 if packed else MA))
     return {'bits': B1 + 8 * S, 'offset': B1 // 8, 'align': A if packed else max(A, MA)}
 
@@ -152,6 +152,8 @@ def oracle_struct(cls, packed, e):
 def oracle_union(cls, packed, e):
     A, Z, S, MA, W = e['A'], e['Z'], e['S'], e['MA'], e['W']
     bitfield, named, zero = cls[1:4]
+    if cls[0].startswith('alignas-'):
+        packed = False
     if bitfield and (not named or packed):
         contrib = (W + 7) // 8         # an unnamed bit-field only reserves its bits
     else:
@@ -436,7 +438,7 @@ def r083(P, u, rep):
     rep.rule('R08.3', 'struct_decl/union_decl lay one more member out exactly as psABI 3.1.2 prescribes (placement, bit-field units, alignment contribution, packed) '
              'and round the final size to the alignment; struct and union take a member\'s alignment from the same source; attributes (before the tag and after the brace, for new, '
              'known and absent tags) and flexible arrays reach the type that is laid out; every positive aligned(N) sets the alignment, so among several aligned attributes '
-             '(in one list, in two lists, before the tag and after the brace) the last one decides, as in gcc', floor=82)
+             '(in one list, in two lists, before the tag and after the brace) the last one decides, as in gcc', floor=90)
     _guarded(rep, '%s:struct_decl:layout' % PU, layout_fn, P, u, rep, 'struct_decl', False)
     _guarded(rep, '%s:union_decl:layout' % PU, layout_fn, P, u, rep, 'union_decl', True)
     _guarded(rep, '%s:attribute_list:attributes' % PU, r083_attributes, P, u, rep)
@@ -1369,32 +1371,65 @@ def r084_alignas_specifier(P, u, rep):
         t = Obj('Type', lazy=False, label='named-type')
         t.fields.update({'size': Sym('TS', 'int'), 'align': Sym('TAL', 'int'), 'kind': u.enums.get('TY_INT', 0)})
         return t
-    for name, seq, want, what in (('_Alignas(type)', ['_Alignas', '(', 'long', ')', 'char'], 'TAL', 'the alignment of the named type'),
-                                  ('_Alignas(constant)', ['_Alignas', '(', '32', ')', 'char'], 'N', 'the value of the constant expression')):
+    class _It(GuardInterp, _LocalEnumInterp):
+        pass
+    # C11 6.7.5p6: with several alignment specifiers the strictest one decides; the path summaries of declspec() are compared, as a
+    # function of the unknown alignments, with max() on a grid (so `if (a < n) a = n`, MAX(), two paths or one are all fine)
+    T_, N_ = ['_Alignas', '(', 'long', ')'], ['_Alignas', '(', '32', ')']
+    G = (1, 2, 4, 8, 16, 32, 64)
+    cases = (('_Alignas(type)', T_ + ['char'], ('TAL',), 'the alignment of the named type'),
+             ('_Alignas(constant)', N_ + ['char'], ('N1',), 'the value of the constant expression'),
+             ('_Alignas(constant)+_Alignas(constant)', N_ + N_ + ['char'], ('N1', 'N2'), 'the strictest (largest) of the two alignments (C11 6.7.5p6; gcc and clang)'),
+             ('_Alignas(type)+_Alignas(constant)', T_ + N_ + ['char'], ('TAL', 'N1'), 'the strictest (largest) of the two alignments (C11 6.7.5p6; gcc and clang)'),
+             ('_Alignas(constant)+_Alignas(type)', N_ + T_ + ['char'], ('N1', 'TAL'), 'the strictest (largest) of the two alignments (C11 6.7.5p6; gcc and clang)'))
+    for name, seq, syms, what in cases:
         key = '%s:declspec:%s' % (PU, name)
+        shown = []
+        k_ = 0
+        for t_ in seq:
+            if t_ == '32':
+                k_ += 1
+                t_ = 'N%d' % k_
+            shown.append(t_)
+        shown = ' '.join(shown)
         try:
-            it = _LocalEnumInterp(P, u, {'models': tw.models(), 'cut': {'const_expr': _cut_const_expr('N'), 'typename': cut_typename},
-                                         'globals': {g: (lambda ctx, g=g, f=f: Obj('Type', lazy=False, label=g, fields=dict(f))) for g, f in type_globals(P).items()}})
+            it = _It(P, u, {'models': tw.models(), 'cut': {'const_expr': _cut_const_exprs('N'), 'typename': cut_typename},
+                            'globals': {g: (lambda ctx, g=g, f=f: Obj('Type', lazy=False, label=g, fields=dict(f))) for g, f in type_globals(P).items()}})
             it.local_enums = _local_enums(fn)
+            it.set_budget(6)
 
             def mk(ctx):
                 a = Obj('VarAttr', lazy=False, label='attr')
                 ctx.c08attr = a
+                for s_ in ('TAL', 'N1', 'N2'):
+                    ctx.bounds[('sym', s_)] = [1, 1 << 20]        # alignments that have an effect
+                    ctx.neq[('sym', s_)] = {0}
                 return [_Ref(_ValPlace(0)), tw.tokens(seq), a]
-            paths = it.explore('declspec', mk, max_paths=50)
+            paths = it.explore('declspec', mk, max_paths=200)
         except AnalysisBroken as ex:
-            rep.undecided('R08.4', key, 'declspec not interpretable on `%s`: %s' % (' '.join(seq), ex), where=where)
+            rep.undecided('R08.4', key, 'declspec not interpretable on `%s`: %s' % (shown, ex), where=where)
             continue
-        if len(paths) != 1:
-            rep.undecided('R08.4', key, '%d paths for a concrete specifier list' % len(paths), where=where)
+        try:
+            sums = [(Summary(ctx, {'align': ctx.c08attr.fields.get('align', 0)}), out) for ctx, out in paths]
+            bad = None
+            for vals in itertools.product(G, repeat=len(syms)):
+                e = dict(zip(syms, vals))
+                e.setdefault('TS', 8)
+                hits = [(s_, out) for s_, out in sums if s_.applies(e)]
+                if not hits:
+                    raise Uninterpretable('no path of declspec() covers %r' % (e,))
+                for s_, out in hits:
+                    txt = ', '.join('%s=%d' % (k, e[k]) for k in syms).replace('TAL', '_Alignof(type)')
+                    if out[0] != 'ret':
+                        bad = bad or '`%s x;` (%s) is rejected by %s()' % (shown, txt, out[1])
+                    else:
+                        got = s_.out['align'](e)
+                        if got != max(vals) and bad is None:
+                            bad = '`%s x;` with %s records alignment %d for x instead of %s, %d' % (shown, txt, got, what, max(vals))
+        except (Uninterpretable, KeyError, ZeroDivisionError) as ex:
+            rep.undecided('R08.4', key, 'declspec on `%s`: the recorded alignment is not a function of the specifiers\' alignments: %s' % (shown, ex), where=where)
             continue
-        ctx, out = paths[0]
-        if out[0] != 'ret':
-            rep.ob('R08.4', key, False, '`%s x;` is rejected by %s()' % (' '.join(seq), out[1]), where=where)
-            continue
-        al = ctx.c08attr.fields.get('align', 0)
-        rep.ob('R08.4', key, _is_just(al, want),
-               '`%s x;` records alignment %r for x instead of %s' % (' '.join(seq), al, what), where=where)
+        rep.ob('R08.4', key, bad is None, (bad or '') + (': the object or member is less aligned than the declaration asks for' if bad and len(syms) > 1 else ''), where=where)
 
 
 # =====================================================================================
@@ -1471,9 +1506,160 @@ def _flexible_array(rep, it, paths, where):
         rep.ob('R08.3', key, bad is None, bad or '', where=where)
 
 
+def _kinds_of(it, u, t):
+    """names of the kinds a type object can still have on this path (None: unconstrained)"""
+    k = t.fields.get('kind') if isinstance(t, Obj) else None
+    if k is None:
+        return None
+    if isinstance(k, View):
+        vals = set(k.proj(c) for c in k.cell.cands)
+    else:
+        vals = {k}
+    names = {v: n for n, v in u.enums.items() if n.startswith('TY_')}
+    return set(names.get(v, v) for v in vals)
+
+
+def _operand_type(P, u, rep, prim):
+    """sizeof / _Alignof yield the size / alignment of *the operand's type*: primary() is executed on `sizeof ( int )`, `sizeof y`,
+    `_Alignof ( int )`, `_Alignof y` with the type-name / operand parser replaced by its contract (consumes the operand, yields a
+    type T - resp. a node of type T - whose size, alignment, kind are unknowns and whose base chain T -> B1 -> B2 has unknowns of
+    its own). On every returning path that does not compute a run-time (VLA) size the number handed to the node constructor must
+    be T's own field. (The alignment of a base type is accepted when the path established that every type above it is an array:
+    array_of() gives an array its element's alignment, R08.2.)"""
+    tw = TokenWorld(P, u)
+    noret = ('error', 'error_at', 'error_tok', 'exit', '_exit', 'abort', '__assert_fail')
+    sem = {}
+
+    def sig(name):
+        ps = u.params(name) if u.fn(name) is not None else None
+        if ps is None:
+            return None
+        return [_norm_ptr(p.type) for p in ps]
+
+    type_parsers, node_parsers, opaque = set(), set(), set()
+    for c in prim.calls():
+        name = c.callee()
+        if not name or name in noret or name in ('equal', 'is_typename', 'skip', 'add_type', 'primary'):
+            continue
+        rt = _norm_ptr(c.dtype or c.type)
+        if sig(name) == ['Token * *', 'Token *'] and rt == 'Type *':
+            type_parsers.add(name)
+        elif sig(name) == ['Token * *', 'Token *'] and rt == 'Node *':
+            node_parsers.add(name)
+        else:
+            opaque.add(name)
+
+    def consume_one(it, args):
+        rest, tok = args[0], args[1]
+        if not (isinstance(rest, _Ref) and isinstance(tok, Obj)):
+            raise AnalysisBroken('operand parser called with unexpected arguments')
+        rest.place.set(it, tok.fields.get('next'))
+
+    def cut_type(it, ctx, call, args):
+        consume_one(it, args)
+        ctx.c08_parsed = getattr(ctx, 'c08_parsed', 0) + 1
+        return ctx.c08op[0]
+
+    def cut_node(it, ctx, call, args):
+        consume_one(it, args)
+        ctx.c08_parsed = getattr(ctx, 'c08_parsed', 0) + 1
+        n = Obj('Node', lazy=True, label='operand-node')
+        n.fields['ty'] = ctx.c08op[0]
+        return n
+
+    def m_skip(it, ctx, call, args):
+        t = it.settle(args[0]) if isinstance(args[0], View) else args[0]
+        if not (isinstance(t, Obj) and isinstance(t.fields.get('loc'), str) and isinstance(args[1], str)):
+            raise AnalysisBroken('skip() on a non-concrete token')
+        if t.fields['loc'] != args[1]:
+            raise AnalysisBroken('skip(): `%s` expected, `%s` found' % (args[1], t.fields['loc']))
+        return t.fields.get('next')
+
+    def mk_for(seq):
+        def mk(ctx):
+            chain = []
+            nxt = 0
+            for lab, s, a in (('base of the base of the operand type', 'BS2', 'BAL2'), ('base of the operand type', 'BS1', 'BAL1'), ('operand type', 'TS', 'TAL')):
+                t = Obj('Type', lazy=True, label=lab)
+                t.fields.update({'size': Sym(s, 'int'), 'align': Sym(a, 'int'), 'base': nxt})
+                nxt = t
+                chain.insert(0, t)
+            ctx.c08op = chain
+            return [_Ref(_ValPlace(0)), tw.tokens(seq)]
+        return mk
+    what = {'TS': 'the size of the operand type', 'TAL': 'the alignment of the operand type',
+            'BS1': 'the size of the type the operand type is derived from (pointee / element type)', 'BAL1': 'the alignment of the type the operand type is derived from (pointee / element type)',
+            'BS2': 'the size of the base type of the base type', 'BAL2': 'the alignment of the base type of the base type (every pointer and array level stripped)'}
+    for kw, field, want in (('sizeof', 'size', 'TS'), ('_Alignof', 'align', 'TAL')):
+        for form, seq in (('type', [kw, '(', 'int', ')']), ('expr', [kw, 'y'])):
+            key = '%s:primary:%s-%s/operand-type' % (PU, kw, form)
+            where = '%s:%d' % (PU, prim.line)
+            spelled = '%s(type-name)' % kw if form == 'type' else '%s expression' % kw
+            try:
+                models = tw.models()
+                models['skip'] = m_skip
+                cuts = {'add_type': lambda it, ctx, c, a: None}
+                for nm in type_parsers:
+                    cuts[nm] = cut_type
+                for nm in node_parsers:
+                    cuts[nm] = cut_node
+                it = Interp(P, u, {'models': models, 'cut': cuts, 'opaque': sorted(opaque), 'loop_limit': 1})
+                paths = it.explore('primary', mk_for(seq), max_paths=300)
+            except AnalysisBroken as ex:
+                rep.undecided('R08.4', key, 'primary() not interpretable on `%s`: %s' % (' '.join(seq), ex), where=where)
+                continue
+            bad = und = None
+            judged = 0
+            ctors = set()
+            for ctx, out in paths:
+                if getattr(ctx, 'c08_parsed', 0) != 1:
+                    und = und or 'a path of primary() on `%s` parses %d operands' % (' '.join(seq), getattr(ctx, 'c08_parsed', 0))
+                    continue
+                if out[0] != 'ret':
+                    bad = bad or '`%s` is rejected by %s()' % (spelled, out[1])
+                    continue
+                chain = ctx.c08op
+                kinds = [_kinds_of(it, u, t) for t in chain]
+                if kw == 'sizeof' and kinds[0] == {'TY_VLA'}:
+                    continue                         # the size of a VLA is computed at run time
+                ev = [e for e in ctx.events if e[0] == 'call' and e[4] is out[1]]
+                if not ev or not ev[0][2]:
+                    und = und or 'the value primary() returns for `%s` is not the result of a node constructor applied to a number' % spelled
+                    continue
+                v = ev[0][2][0]
+                v = it.settle(v) if isinstance(v, View) else v
+                judged += 1
+                ctors.add(ev[0][1])
+                if _is_just(v, want):
+                    continue
+                ok = False
+                got = None
+                for s_ in what:
+                    if _is_just(v, s_):
+                        got = s_
+                if field == 'align' and got in ('BAL1', 'BAL2'):
+                    depth = 1 if got == 'BAL1' else 2
+                    ok = all(kinds[i] == {'TY_ARRAY'} for i in range(depth))
+                if not ok and bad is None:
+                    bad = ('`%s` yields %s instead of %s%s' % (
+                        spelled, what.get(got, 'the value %r' % (v,)), what[want],
+                        ': for a pointer type (char *, void *, int (*)[4], function pointers) the result is that of the pointee, objects placed at _Alignof(T) boundaries are misaligned'
+                        if (field == 'align' and got) else ''), ev[0][3])
+            if bad and not isinstance(bad, tuple):
+                bad = (bad, prim.line)
+            if bad:
+                rep.ob('R08.4', key, False, bad[0], where='%s:%d' % (PU, bad[1]))
+            elif und or not judged:
+                rep.undecided('R08.4', key, und or 'no returning path of primary() on `%s` to judge' % ' '.join(seq), where=where)
+            else:
+                rep.ob('R08.4', key, True, '', where=where)
+                sem[(kw, form)] = ctors
+    return sem
+
+
 def r084(P, u, rep):
-    rep.rule('R08.4', 'sizeof and _Alignof yield the size / the alignment of the operand type as an unsigned long; an _Alignas specifier reaches the '
-             'object or member it declares (else the type\'s alignment) at every declaration site, and only that declaration (specifier state is zeroed per declaration)', floor=17)
+    rep.rule('R08.4', 'sizeof and _Alignof yield the size / the alignment of the operand type itself (not of a type it is derived from) as an unsigned long; an _Alignas specifier reaches the '
+             'object or member it declares (else the type\'s alignment) at every declaration site, and only that declaration (specifier state is zeroed per declaration)', floor=24)
     tg = type_globals(P)
     prim = u.fn('primary')
     if prim is None:
@@ -1492,6 +1678,7 @@ def r084(P, u, rep):
             continue
         form = 'type' if c.calls('is_typename') else 'expr'
         arms[(kw, form)] = n
+    sem = _operand_type(P, u, rep, prim)
     for kw, field in (('sizeof', 'size'), ('_Alignof', 'align')):
         for form in ('type', 'expr'):
             key = '%s:primary:%s-%s' % (PU, kw, form)
@@ -1539,6 +1726,11 @@ def r084(P, u, rep):
             if bad:
                 rep.ob('R08.4', key, False, bad[0][1], where='%s:%d' % (PU, bad[0][0]))
             elif good and not other:
+                rep.ob('R08.4', key, True, '', where='%s:%d' % (PU, n.line))
+            elif sem.get((kw, form)) and all(_ctor_type(u, c_, tg) is not None and (tg[_ctor_type(u, c_, tg)]['size'], tg[_ctor_type(u, c_, tg)]['is_unsigned']) == (8, 1)
+                                             for c_ in sem[(kw, form)]):
+                # the arm is not written as return <constructor>(<type>->field): executed instead (operand-type obligation): every path hands the operand type's
+                # own field to a constructor that gives its node the type unsigned long
                 rep.ob('R08.4', key, True, '', where='%s:%d' % (PU, n.line))
             else:
                 rep.undecided('R08.4', key, 'the `%s` arm of primary() has %d result expression(s) that are not <constructor>(<type>->%s, ...)' % (kw, other, field), where='%s:%d' % (PU, n.line))
@@ -1705,7 +1897,7 @@ def r086(P, u, rep):
         return (ps[i].name or 'arg%d' % (i + 1)) if i < len(ps) else 'arg%d' % (i + 1)
 
     what_shared = ('an object it did not create (reached through a `Type *` field or a global, or returned by a call that may yield an existing type: a typedef\'d type, '
-                   'ty_int, the type of another declaration)')
+                   'ty_int, the type of another declaration; or a member of the list that a whole-object copy of a type - copy_type() - still shares with the original)')
     for (un, fn), stores in sorted(own.stores.items()):
         for rec, field, atoms, line in sorted(stores, key=lambda x: (x[0], x[1])):
             key = '%s:%s:owned-object-write/%s.%s' % (un, fn, rec, 'whole-object' if field == '*' else field)
@@ -1884,7 +2076,7 @@ def _sizeof_macros(P, rep, tg):
 def r085(P, u, rep):
     rep.rule('R08.5', 'size_t / ptrdiff_t / wchar_t / max_align_t of include/stddef.h are the types the compiler itself gives to sizeof, pointer difference and wide literals, '
              'and those are the psABI types (unsigned long, long, int; max_align_t aligned to 16); every typedef of stddef.h / stdarg.h / stdatomic.h that programs share with '
-             'code built by another compiler has the platform\'s object layout (size, alignment, signedness; va_list: psABI Fig. 3.34)', floor=64)
+             'code built by another compiler has the platform\'s object layout (size, alignment, signedness; va_list: psABI Fig. 3.34)', floor=72)
     H = 'include/stddef.h'
     tds = header_typedefs(P, H)
     tg = type_globals(P)
@@ -2107,6 +2299,162 @@ def _show_shape(sh):
     return k[3:].lower() + ('(' + ', '.join(_show_shape(x) for x in kids.values()) + ')' if kids else '')
 
 
+_DESIGNATORS = (     # class, member designator, what it is
+    ('member', 'm', 'a scalar member'),
+    ('nested-member', 'in.m', 'a member of a member'),
+    ('array-member', 'arr', 'an array member'),
+    ('array-element', 'arr[1]', 'an element of an array member'),
+    ('array-element-2d', 'grid[1][2]', 'an element of a two-dimensional array member'),
+    ('array-row', 'grid[1]', 'a row of a two-dimensional array member'),
+    ('array-of-struct-element-member', 'ent[2].m', 'a member of an element of an array of structs'),
+    ('nested-array-element', 'in.v[3]', 'an element of an array inside a member'),
+)
+
+
+def _split_type(qt):
+    """(kind name, base spelling or None) of a clang type spelling, as the compiler under test classifies it"""
+    t = ' '.join((qt or '').replace('const ', ' ').replace('volatile ', ' ').split())
+    if '(*)' in t:
+        return 'TY_PTR', ''.join(x.strip() for x in t.split('(*)', 1))
+    if t.endswith(']'):
+        i = t.index('[')
+        j = t.index(']', i)
+        return 'TY_ARRAY', (t[:i] + t[j + 1:]).strip()
+    if t.endswith('*'):
+        return 'TY_PTR', t[:-1].strip()
+    if t.startswith('struct '):
+        return 'TY_STRUCT', None
+    if t.startswith('union '):
+        return 'TY_UNION', None
+    a = _lp64_of_spelling(t)
+    if a is None or a[0] != 'int':
+        raise Uninterpretable('type `%s` in the expansion' % qt)
+    return {1: 'TY_CHAR', 2: 'TY_SHORT', 4: 'TY_INT', 8: 'TY_LONG'}[a[1]], None
+
+
+def _mk_type(E, qt, depth=0):
+    kind, base = _split_type(qt)
+    if kind not in E:
+        raise AnalysisBroken('type kind %s vanished' % kind)
+    t = Obj('Type', lazy=False, label=qt)
+    t.fields.update({'kind': E[kind], 'base': _mk_type(E, base, depth + 1) if (base is not None and depth < 6) else 0})
+    return t
+
+
+def _node_tree(E, d):
+    """clang expression (JSON) -> the typed node tree the parser + add_type() build for it (concrete Engine-I objects).
+    x[i] is *(x + i * sizeof *x); add_type() converts both operands of a pointer addition to the pointer type (casts), the
+    type of `*p` is the pointee, an array-typed lvalue keeps its array type (no decay node)."""
+    def node(kind, qt, **kids):
+        if kind not in E:
+            raise AnalysisBroken('node kind %s vanished' % kind)
+        n = Obj('Node', lazy=False, label=kind)
+        n.fields.update({'kind': E[kind], 'ty': _mk_type(E, qt), 'lhs': 0, 'rhs': 0, 'cond': 0, 'then': 0, 'els': 0})
+        n.fields.update(kids)
+        n.meta['qt'] = qt
+        return n
+
+    def qt_of(x):
+        t = x.get('type', {})
+        return t.get('desugaredQualType') or t.get('qualType')
+    k = d.get('kind')
+    I = [c for c in (d.get('inner') or []) if c]
+    if k in ('ParenExpr', 'ConstantExpr', 'ImplicitCastExpr') and I:
+        return _node_tree(E, I[0])
+    if k in ('IntegerLiteral', 'CharacterLiteral', 'UnaryExprOrTypeTraitExpr'):
+        return node('ND_NUM', 'int')
+    if k == 'CStyleCastExpr' and I:
+        return node('ND_CAST', qt_of(d), lhs=_node_tree(E, I[-1]))
+    if k == 'UnaryOperator' and d.get('opcode') in _CLANG_UNOP and I:
+        return node(_CLANG_UNOP[d['opcode']], qt_of(d), lhs=_node_tree(E, I[0]))
+    if k == 'MemberExpr' and I:
+        b = _node_tree(E, I[0])
+        if d.get('isArrow'):
+            kind, base = _split_type(b.meta['qt'])
+            if kind != 'TY_PTR':
+                raise Uninterpretable('-> applied to `%s`' % b.meta['qt'])
+            b = node('ND_DEREF', base, lhs=b)
+        return node('ND_MEMBER', qt_of(d), lhs=b)
+    if k == 'ArraySubscriptExpr' and len(I) == 2:
+        b, i = _node_tree(E, I[0]), _node_tree(E, I[1])
+        kind, elem = _split_type(b.meta['qt'])
+        if kind not in ('TY_ARRAY', 'TY_PTR'):
+            raise Uninterpretable('subscript applied to `%s`' % b.meta['qt'])
+        pt = elem + ' *'
+        mul = node('ND_MUL', 'long', lhs=node('ND_CAST', 'long', lhs=i), rhs=node('ND_CAST', 'long', lhs=node('ND_NUM', 'long')))
+        add = node('ND_ADD', pt, lhs=node('ND_CAST', pt, lhs=b), rhs=node('ND_CAST', pt, lhs=mul))
+        return node('ND_DEREF', elem, lhs=add)
+    if k == 'BinaryOperator' and d.get('opcode') in _CLANG_BINOP and len(I) == 2:
+        return node(_CLANG_BINOP[d['opcode']], qt_of(d), lhs=_node_tree(E, I[0]), rhs=_node_tree(E, I[1]))
+    raise Uninterpretable('expression kind %s in the expansion' % k)
+
+
+def _show_tree(n):
+    kids = [n.fields.get(f) for f in ('lhs', 'rhs')]
+    kids = [x for x in kids if isinstance(x, Obj)]
+    return n.label[3:].lower() + ('(' + ', '.join(_show_tree(x) for x in kids) + ')' if kids else '')
+
+
+def _offsetof_designators(P, u, rep, H, path, pred):
+    """C11 7.19p3 for every form of member designator: `offsetof(T, d)` with d a member, a member of a member, an array member, an
+    element (of an element) of an array member, a member of an array element. The expansion the bundled header gives is read through
+    clang, rebuilt as the typed node tree the parser hands to the constant-expression predicate, and the predicate (with every
+    predicate it calls) is *executed* by Engine I on that concrete tree; it must answer "constant". Otherwise array_dimensions()
+    gives `char a[offsetof(T, d)]` a VLA type: as a struct member that is silently a pointer-sized slot, and the size, the
+    alignment and every later offset of the enclosing struct differ from the psABI."""
+    base = '%s:offsetof:constant-expression' % H
+    where = '%s:%d' % (PU, u.fn(pred).line)
+    E = u.enums
+    post = u.fn('postfix')
+    subscript_ok = False
+    if post is not None:
+        for c in post.calls('new_unary'):
+            a = c.args()
+            if len(a) >= 2 and a[0].strip().kind == 'DeclRefExpr' and a[0].strip().ref_name == 'ND_DEREF' and a[1].strip().kind == 'CallExpr' and a[1].strip().callee() == 'new_add':
+                subscript_ok = True
+    probe = ('#include "%s"\nstruct __in { char c; long m; char v[9]; };\n'
+             'struct __probe { char c; int m; char arr[7]; char grid[3][5]; struct __in in; struct __in ent[4]; };\n' % path)
+    probe += 'enum {\n' + ''.join('  __probe_v%d = offsetof(struct __probe, %s),\n' % (i, dsg) for i, (_c, dsg, _w) in enumerate(_DESIGNATORS)) + '};\n'
+    p = subprocess.run(['clang-14', '-x', 'c', '-std=c11', '-w', '-nostdinc', '-fsyntax-only', '-Xclang', '-ast-dump=json', '-'], input=probe, capture_output=True, text=True)
+    try:
+        top = json.loads(p.stdout)
+    except ValueError:
+        top = None
+    inits = {}
+    for d in (top or {}).get('inner', []):
+        if d.get('kind') == 'EnumDecl':
+            for c in d.get('inner', []) or []:
+                if c.get('kind') == 'EnumConstantDecl' and (c.get('name') or '').startswith('__probe_v') and c.get('inner'):
+                    inits[int(c['name'][len('__probe_v'):])] = c['inner'][0]
+    if p.returncode != 0 or len(inits) != len(_DESIGNATORS):
+        rep.undecided('R08.5', base, 'clang does not accept the offsetof designator probes with %s: %s' % (H, p.stderr[-200:]), where=where)
+        return
+    for i, (cls, dsg, what) in enumerate(_DESIGNATORS):
+        key = '%s/%s' % (base, cls)
+        if '[' in dsg and not subscript_ok:
+            rep.undecided('R08.5', key, 'postfix() does not build x[i] as new_unary(ND_DEREF, new_add(x, i)) any more: the tree shape of a subscript is not known', where=where)
+            continue
+        try:
+            tree = _node_tree(E, inits[i])
+            it = Interp(P, u, {'cut': {'add_type': lambda it_, ctx, c, a: None}, 'loop_limit': 1, 'rec_limit': 64, 'max_depth': 200})
+            paths = it.explore(pred, lambda ctx: [tree], max_paths=50)
+        except (Uninterpretable, AnalysisBroken) as ex:
+            rep.undecided('R08.5', key, '%s() not interpretable on the expansion of offsetof(T, %s): %s' % (pred, dsg, ex), where=where)
+            continue
+        outs = set()
+        for ctx, out in paths:
+            v = out[1] if out[0] == 'ret' else None
+            v = it.settle(v) if isinstance(v, View) else v
+            outs.add(int(bool(v)) if isinstance(v, (int, bool)) else None)
+        if len(paths) != 1 or None in outs:
+            rep.undecided('R08.5', key, '%s() has %d paths / a non-concrete answer on the concrete tree of offsetof(T, %s)' % (pred, len(paths), dsg), where=where)
+            continue
+        rep.ob('R08.5', key, outs == {1},
+               'offsetof(T, %s) - %s - expands to %s, which %s() does not accept as a constant expression (C11 7.19p3; eval() folds it): an array whose bound it is, `char pad[offsetof(T, %s)]`, '
+               'gets a variable-length array type; as a struct member that is silently an 8-byte, 8-aligned slot, so sizeof/_Alignof of the enclosing struct and the offsets of all later members '
+               'differ from the psABI, and at file scope the declaration is rejected' % (dsg, what, _show_tree(tree), pred, dsg), where=where, facts={'tree': _show_tree(tree)})
+
+
 def r085_offsetof(P, u, rep):
     """C11 7.19p3: offsetof expands to an integer constant expression. The expansion the bundled <stddef.h> gives is read through clang
     (a probe `enum { v = offsetof(struct p, m) }` including the header), translated into the node kinds the parser builds for it
@@ -2144,6 +2492,10 @@ def r085_offsetof(P, u, rep):
     except Uninterpretable as ex:
         rep.undecided('R08.5', key, 'offsetof / %s() not interpretable: %s' % (preds[0], ex), where=where)
         return
+    try:
+        _offsetof_designators(P, u, rep, H, path, preds[0])
+    except AnalysisBroken as ex:
+        rep.undecided('R08.5', '%s:offsetof:constant-expression' % H, 'designator probes could not be decided: %s' % ex, where=where)
     rep.ob('R08.5', key, ok, 'offsetof(type, member) of %s expands to %s, which %s() does not accept as a constant expression (the folder eval() does evaluate it): '
            '`char buf[offsetof(struct S, m)];` gets a variable-length array type - sizeof(buf) is not the psABI size of char[offset], at file scope the object is emitted as an 8-byte '
            'pointer slot and `sizeof buf` crashes the compiler (C11 7.19p3: offsetof is an integer constant expression)' % (H, _show_shape(shape), preds[0]), where=where,
